@@ -530,7 +530,7 @@ Proof.
   destruct (tinv_ser n g _ _ (li_valid i) (li_v i) Hn HT Hv) as (Htx & Hrdy & Hser').
   destruct HT as [_ Hg].
   destruct (rinv_step n g _ _ _ (li_valid i) (li_v i) (li_ready i) Hn Hg HR) as (HR' & Hcomp & Htmp).
-  unfold link_step. cbn [l_ser l_cgr l_des]. rewrite Hpulse, Htx.
+  rewrite Htx in Hdiv'. unfold LInv, TInv, link_step. cbn [l_ser l_cgr l_des]. rewrite Hpulse, Htx.
   assert (Hgr : g_r (gstep n g (li_valid i) (li_v i)) = rnext n (g_r g)).
   { apply g_r_gstep.
     - destruct g; cbn [gser g_r] in *; tauto.
@@ -538,7 +538,7 @@ Proof.
       split; [intros ->; lia | lia]. }
   (* hand-over part *)
   rewrite (des_mk (l_des L)) in HH.
-  pose proof (hinv_step hc pb _ _ _ comp (gbyte g) (li_ready i)) as Hh.
+  pose proof (hinv_step hc pb (UARTDeserializer_s_state_v (d_fsm (l_des L))) (d_valid (l_des L)) (d_v (l_des L)) comp (gbyte g) (li_ready i)) as Hh.
   assert (HH0 : HInv hc pb (mkdes 0 0 (UARTDeserializer_s_state_v (d_fsm (l_des L))) 0 (d_valid (l_des L)) (d_v (l_des L)) 0)) by exact HH.
   specialize (Hh HH0 Hlegal). cbv zeta in Hh.
   split; [|split; [|split]].
@@ -548,11 +548,310 @@ Proof.
     + rewrite (des_mk (l_des L)) at 1. rewrite des_step_split. cbv zeta. cbn [di_rx di_ready di_sample].
       rewrite Hcomp. fold comp.
       assert (Hb : (if comp then Wire_prepare 8 (UARTDeserializer_s_temp (d_fsm (l_des L))) else d_v (l_des L)) = (if comp then gbyte g else d_v (l_des L))).
-      { destruct comp eqn:E; [|reflexivity]. rewrite (Htmp eq_refl). rewrite prep_trunc, trunc_small; [reflexivity|lia|].
+      { destruct comp eqn:E; [|reflexivity]. rewrite (Htmp E). rewrite prep_trunc, trunc_small; [reflexivity|lia|].
         destruct g; cbn [gser gbyte] in *; change (2 ^ 8) with 256; tauto. }
       rewrite Hb. apply Hh.
   - unfold link_accept. now rewrite Hrdy.
   - unfold link_deliver. exact (proj2 (Hh 0 0 0 0)).
   - rewrite (rinv_ds n _ _ _ HR'). pose proof (gstep_completes n g _ (li_valid i) (li_v i) Hn Hg) as E. fold comp in E.
     destruct (gstep n g (li_valid i) (li_v i)); [rewrite <- E; reflexivity|]. rewrite <- E. destruct (_ =? n + 2); reflexivity.
+Qed.
+
+(* what the wires show: clock_desync is high after this edge iff the ghost says a frame completes at it (no consumer hypothesis needed) *)
+Lemma link_comp_obs n g hc pb L i :
+  2 <= n -> 0 <= li_v i < 256 -> LInv n g hc pb L ->
+  (d_desync (l_des (link_step n L i)) =? 1) = gcompletes n g.
+Proof.
+  intros Hn Hv (HT & HR & _).
+  destruct (tinv_ser n g _ _ (li_valid i) (li_v i) Hn HT Hv) as (Htx & _ & _). destruct HT as [_ Hg].
+  destruct (rinv_step n g _ _ _ (li_valid i) (li_v i) (li_ready i) Hn Hg HR) as (HR' & _ & _).
+  unfold link_step. cbn [l_des]. rewrite Htx.
+  rewrite (rinv_ds n _ _ _ HR'). pose proof (gstep_completes n g _ (li_valid i) (li_v i) Hn Hg) as E.
+  destruct (gstep n g (li_valid i) (li_v i)); [rewrite <- E; reflexivity|]. rewrite <- E. destruct (_ =? n + 2); reflexivity.
+Qed.
+
+Lemma inflight_le1 n g s : 2 <= n -> gser n g s -> (length (ginflight n g) <= 1)%nat.
+Proof.
+  intros Hn Hg. destruct g as [b k r | b u r sp t]; cbn [ginflight gser] in *; [cbn; lia|].
+  destruct Hg as (_ & _ & _ & _ & _ & Hsp). rewrite app_length.
+  destruct Hsp as [[-> H]|[[-> H]|[[-> H]|[[-> H]|[-> H]]]]]; cbn [Z.eqb Pos.eqb orb length];
+    destruct (Z.leb_spec u (n + 1)); cbn [length]; lia.
+Qed.
+
+Lemma linv_run n : 2 <= n -> forall ins g hc pb L,
+  LInv n g hc pb L -> Forall (fun i => 0 <= li_v i < 256) ins -> keeps_up hc (link_events n L ins) ->
+  exists g' hc' pb', LInv n g' hc' pb' (final (link_step n) L ins) /\ hc' = hc_run hc (link_events n L ins) /\
+    hpend hc pb ++ ginflight n g ++ link_accepted n L ins = link_delivered n L ins ++ hpend hc' pb' ++ ginflight n g'.
+Proof.
+  intros Hn. induction ins as [|i ins IH]; intros g hc pb L HI Hvs Hk.
+  - exists g, hc, pb. cbn. rewrite !app_nil_r. auto.
+  - inversion Hvs as [|? ? Hv Hvs']; subst. cbn [link_events keeps_up] in Hk. cbv zeta in Hk.
+    rewrite (link_comp_obs n g hc pb L i Hn Hv HI) in Hk. destruct Hk as [Hlegal Hk].
+    destruct (linv_step n g hc pb L i Hn Hv HI Hlegal) as (HI' & Hacc & Hdl & _).
+    destruct (IH _ _ _ _ HI' Hvs' Hk) as (g' & hc' & pb' & HF & Hhc & Heq).
+    exists g', hc', pb'. split; [exact HF|]. split.
+    { cbn [link_events hc_run]. cbv zeta. rewrite (link_comp_obs n g hc pb L i Hn Hv (conj (conj (proj1 (proj1 HI)) (proj2 (proj1 HI))) (proj2 HI))). exact Hhc. }
+    cbn [link_accepted link_delivered]. rewrite Hacc.
+    destruct HI as ((_ & Hg) & _).
+    pose proof (inflight_step n g _ (li_valid i) (li_v i) Hn Hg) as Hin.
+    rewrite (app_assoc (ginflight n g)), Hin, <- !app_assoc, (app_assoc (hpend hc pb)), Hdl, <- !app_assoc.
+    f_equal. exact Heq.
+Qed.
+
+(* ---- power-up *)
+Lemma linv_boot n i0 : 2 <= n ->
+  LInv n (GT 0 (3 * n + 3) (n - 1) 1 0) 2 0 (link_step n link_init i0)
+  /\ link_accept link_init i0 = [] /\ link_deliver link_init i0 = []
+  /\ (d_desync (l_des (link_step n link_init i0)) =? 1) = false.
+Proof.
+  intros Hn. unfold LInv, TInv, link_step, link_init. cbn [l_ser l_cgr l_des ser_init s_tx des_init d_desync].
+  assert (Hn1 : 1 <= n) by lia.
+  change (cgr_pulse cgr_init) with 0. change (cgr_sample cgr_init) with 0.
+  split; [|split; [|split]].
+  - split; [|split].
+    + split.
+      * cbn [g_r]. destruct (cgr_step_tx n cgr_init 0 0) as [E1 E2]. rewrite E1, E2.
+        assert (H0 : div_phase n 0 (g_tx cgr_init) (g_zpos cgr_init)).
+        { unfold div_phase. cbn [g_tx g_zpos cgr_init cd_q cd_clk]. change (0 =? 0) with true. cbv iota.
+          destruct (Z.ltb_spec 0 n); [|lia]. repeat split; auto; lia. }
+        destruct (div_phase_step n 0 _ _ Hn1 H0) as [Hs _].
+        replace (ptf n (n - 1)) with (adv n 0); [exact Hs|]. unfold adv, ptf. zbool; lia.
+      * cbn [gser]. repeat split; try lia.
+    + cbn [RInv]. replace (3 * n + 3 <=? n + 1) with false by (symmetry; apply Z.leb_gt; lia).
+      replace (3 * n + 3 =? n + 2) with false by (symmetry; apply Z.eqb_neq; lia).
+      assert (Hb : cgr_bits n cgr_init) by (unfold cgr_bits; cbn; repeat split; auto; lia).
+      destruct (cgr_idle_step n cgr_init 0 0 Hn1 Hb eq_refl eq_refl isbit0 (or_intror eq_refl)) as (F & A & B & _).
+      unfold ridle. refine (conj F (conj A (conj B _))).
+      change des_init with (mkdes 0 0 0 0 0 0 0). rewrite des_step_split. cbn. auto.
+    + change des_init with (mkdes 0 0 0 0 0 0 0). rewrite des_step_split. unfold HInv. cbn. auto.
+  - reflexivity.
+  - reflexivity.
+  - change des_init with (mkdes 0 0 0 0 0 0 0). rewrite des_step_split. reflexivity.
+Qed.
+
+(* ---- link_delivers (safety): at every moment, the bytes accepted so far are the bytes delivered so far followed by the (at most two)
+   bytes still in the pipeline: nothing is lost, duplicated, altered or reordered *)
+Lemma link_delivers_safety n ins :
+  2 <= n -> Forall (fun i => 0 <= li_v i < 256) ins -> keeps_up 2 (link_events n link_init ins) ->
+  exists pend, link_accepted n link_init ins = link_delivered n link_init ins ++ pend /\ (length pend <= 2)%nat.
+Proof.
+  intros Hn Hvs Hk. destruct ins as [|i0 ins]; [exists []; cbn; auto|].
+  inversion Hvs as [|? ? Hv0 Hvs']; subst.
+  destruct (linv_boot n i0 Hn) as (HI & Ha & Hd & Hc).
+  cbn [link_events keeps_up] in Hk. cbv zeta in Hk. rewrite Hc in Hk. destruct Hk as [_ Hk].
+  assert (Hh : hnext 2 false (li_ready i0) = 2) by (unfold hnext; destruct (li_ready i0 =? 0); reflexivity).
+  rewrite Hh in Hk.
+  destruct (linv_run n Hn ins _ _ _ _ HI Hvs' Hk) as (g' & hc' & pb' & HF & _ & Heq).
+  cbn [link_accepted link_delivered]. rewrite Ha, Hd. cbn [app].
+  exists (hpend hc' pb' ++ ginflight n g'). split.
+  - rewrite <- Heq. cbn [hpend ginflight]. replace (3 * n + 3 <=? n + 1) with false by (symmetry; apply Z.leb_gt; lia). reflexivity.
+  - destruct HF as ((_ & Hg) & _). rewrite app_length. pose proof (inflight_le1 n g' _ Hn Hg).
+    unfold hpend. destruct (hc' <? 2); cbn [length]; lia.
+Qed.
+
+(* ------------------------------------------------------------------ progress: with the producer quiet, the pipeline drains *)
+(* number of clocks until the serializer is back in READY with nothing on the line and the receive side idle *)
+Definition ustar (n : Z) : Z := Z.max (2 * n) (n + 3).
+Definition rank (n : Z) (g : ghost) : Z :=
+  match g with
+  | GL b k r => (9 - k) * (2 * n) - r + ustar n
+  | GT b u r sp t =>
+      if (sp =? 5) || (sp =? 0) then ustar n - u
+      else if sp =? 1 then Z.max 0 (n + 3 - u)
+      else if sp =? 2 then (if r <=? 2 * n - 2 then 2 * n - 1 - r else 2 * n) + 1 + 9 * (2 * n) + ustar n
+      else 9 * (2 * n) + ustar n + 1
+  end.
+
+Lemma rank_step n g s v : 2 <= n -> gser n g s ->
+  0 <= rank n g <= 22 * n + 4 /\
+  rank n (gstep n g 0 v) = Z.max 0 (rank n g - 1) /\
+  (rank n g = 0 -> ginflight n g = [] /\ gcompletes n g = false).
+Proof.
+  intros Hn Hg. destruct g as [b k r | b u r sp t]; cbn [gser rank gstep ginflight gcompletes] in *.
+  - destruct Hg as (Hb & Hk & Hr & _).
+    assert (Hk9 : k = 0 \/ k = 1 \/ k = 2 \/ k = 3 \/ k = 4 \/ k = 5 \/ k = 6 \/ k = 7 \/ k = 8) by lia.
+    destruct (Z.eqb_spec r (2 * n - 1)) as [Er|Er].
+    + destruct (Z.eqb_spec k 8) as [E8|E8]; cbn [rank Z.eqb Pos.eqb orb]; unfold ustar.
+      * subst k. repeat split; try lia; try (intros; exfalso; lia).
+      * destruct Hk9 as [-> | [-> | [-> | [-> | [-> | [-> | [-> | [-> | ->]]]]]]]]; repeat split; try lia; try (intros; exfalso; lia).
+    + cbn [rank]. unfold ustar.
+      destruct Hk9 as [-> | [-> | [-> | [-> | [-> | [-> | [-> | [-> | ->]]]]]]]]; repeat split; try lia; try (intros; exfalso; lia).
+  - destruct Hg as (Hb & Hu & Hr & Hur & _ & Hsp). unfold rnext.
+    destruct Hsp as [[-> H]|[[-> H]|[[-> H]|[[-> H]|[-> H]]]]]; cbn [Z.eqb Pos.eqb orb].
+    + destruct (Z.eqb_spec r (2 * n - 2)); cbn [rank Z.eqb Pos.eqb orb]; unfold ustar; repeat split; try lia; try (intros; exfalso; lia).
+    + cbn [rank Z.eqb Pos.eqb orb]. unfold ustar. repeat split; try lia; try (intros; exfalso; lia).
+    + cbn [rank Z.eqb Pos.eqb orb app]. unfold ustar. repeat split; try lia.
+      all: try (replace (u <=? n + 1) with false by (symmetry; apply Z.leb_gt; lia); reflexivity).
+      all: try (apply Z.eqb_neq; lia).
+    + destruct (Z.eqb_spec r (2 * n - 2)); cbn [rank Z.eqb Pos.eqb orb]; unfold ustar; zbool; repeat split; try lia; try (intros; exfalso; lia).
+    + cbn [rank]. unfold ustar. repeat split; try lia; try (intros; exfalso; lia).
+Qed.
+
+(* one clock: the invariant and the bookkeeping equation together *)
+Lemma linv_step_book n g hc pb L i :
+  2 <= n -> 0 <= li_v i < 256 -> LInv n g hc pb L ->
+  (gcompletes n g = true -> hc = 2 \/ (hc = 1 /\ li_ready i <> 0)) ->
+  let g' := gstep n g (li_valid i) (li_v i) in
+  let hc' := hnext hc (gcompletes n g) (li_ready i) in
+  let pb' := if gcompletes n g then gbyte g else pb in
+  LInv n g' hc' pb' (link_step n L i) /\
+  (forall X Y, hpend hc' pb' ++ ginflight n g' ++ X = Y ->
+               hpend hc pb ++ ginflight n g ++ link_accept L i ++ X = link_deliver L i ++ Y).
+Proof.
+  intros Hn Hv HI Hlegal g' hc' pb'.
+  destruct (linv_step n g hc pb L i Hn Hv HI Hlegal) as (HI' & Hacc & Hdl & _). split; [exact HI'|].
+  intros X Y <-. rewrite Hacc. destruct HI as ((_ & Hg) & _).
+  pose proof (inflight_step n g _ (li_valid i) (li_v i) Hn Hg) as Hin.
+  rewrite (app_assoc (ginflight n g)), Hin, <- !app_assoc, (app_assoc (hpend hc pb)), Hdl, <- !app_assoc. reflexivity.
+Qed.
+
+Lemma rank_zero n g s : 2 <= n -> gser n g s -> rank n g = 0 ->
+  ginflight n g = [] /\ match g with GT _ u _ _ _ => (u =? n + 2) = false | GL _ _ _ => False end.
+Proof.
+  intros Hn Hg H0. split; [exact (proj1 (proj2 (proj2 (rank_step n g s 0 Hn Hg)) H0))|].
+  destruct g as [b k r | b u r sp t]; cbn [gser rank] in *; unfold ustar in *.
+  - destruct Hg as (_ & Hk & Hr & _).
+    assert (Hk9 : k = 0 \/ k = 1 \/ k = 2 \/ k = 3 \/ k = 4 \/ k = 5 \/ k = 6 \/ k = 7 \/ k = 8) by lia.
+    destruct Hk9 as [-> | [-> | [-> | [-> | [-> | [-> | [-> | [-> | ->]]]]]]]]; lia.
+  - destruct Hg as (_ & Hu & Hr & _ & _ & Hsp). apply Z.eqb_neq.
+    destruct Hsp as [[-> H]|[[-> H]|[[-> H]|[[-> H]|[-> H]]]]]; cbn [Z.eqb Pos.eqb orb] in H0; zbool; lia.
+Qed.
+
+(* the producer is quiet: the rank goes down by one per clock *)
+Definition quiet_in (i : link_in) : Prop := li_valid i = 0 /\ 0 <= li_v i < 256.
+
+Lemma linv_drain n : 2 <= n -> forall quiet g hc pb L,
+  LInv n g hc pb L -> Forall quiet_in quiet -> keeps_up hc (link_events n L quiet) ->
+  exists g' hc' pb', LInv n g' hc' pb' (final (link_step n) L quiet) /\ hc' = hc_run hc (link_events n L quiet) /\
+    rank n g' = Z.max 0 (rank n g - Z.of_nat (length quiet)) /\
+    hpend hc pb ++ ginflight n g ++ link_accepted n L quiet = link_delivered n L quiet ++ hpend hc' pb' ++ ginflight n g'.
+Proof.
+  intros Hn. induction quiet as [|i q IH]; intros g hc pb L HI Hq Hk.
+  - exists g, hc, pb. cbn. rewrite !app_nil_r. pose proof (proj2 (proj1 HI)) as Hg.
+    pose proof (proj1 (rank_step n g _ 0 Hn Hg)). split; [exact HI|]. split; [reflexivity|]. split; [lia|reflexivity].
+  - inversion Hq as [|? ? [Hva Hv] Hq']; subst. cbn [link_events keeps_up hc_run] in *. cbv zeta in Hk.
+    rewrite (link_comp_obs n g hc pb L i Hn Hv HI) in *. destruct Hk as [Hlegal Hk].
+    destruct (linv_step_book n g hc pb L i Hn Hv HI Hlegal) as (HI' & Hbook).
+    destruct (IH _ _ _ _ HI' Hq' Hk) as (g' & hc' & pb' & HF & Hhc & Hrk & Heq).
+    exists g', hc', pb'. split; [exact HF|]. split; [exact Hhc|]. split.
+    + pose proof (proj2 (proj1 HI)) as Hg. destruct (rank_step n g _ (li_v i) Hn Hg) as (Hr0 & Hr1 & _).
+      rewrite Hva in Hrk. rewrite Hr1 in Hrk. rewrite Hrk. cbn [length]. lia.
+    + cbn [link_accepted link_delivered]. rewrite <- app_assoc. apply Hbook. exact Heq.
+Qed.
+
+Lemma linv_run2 n : 2 <= n -> forall ins quiet g hc pb L,
+  LInv n g hc pb L -> Forall (fun i => 0 <= li_v i < 256) ins -> Forall quiet_in quiet ->
+  keeps_up hc (link_events n L (ins ++ quiet)) ->
+  exists g' hc' pb', LInv n g' hc' pb' (final (link_step n) L (ins ++ quiet)) /\ hc' = hc_run hc (link_events n L (ins ++ quiet)) /\
+    rank n g' <= Z.max 0 (22 * n + 4 - Z.of_nat (length quiet)) /\
+    hpend hc pb ++ ginflight n g ++ link_accepted n L (ins ++ quiet) = link_delivered n L (ins ++ quiet) ++ hpend hc' pb' ++ ginflight n g'.
+Proof.
+  intros Hn. induction ins as [|i ins IH]; intros quiet g hc pb L HI Hvs Hq Hk.
+  - cbn [app] in *. destruct (linv_drain n Hn quiet g hc pb L HI Hq Hk) as (g' & hc' & pb' & HF & Hhc & Hrk & Heq).
+    exists g', hc', pb'. split; [exact HF|]. split; [exact Hhc|]. split; [|exact Heq]. pose proof (proj2 (proj1 HI)) as Hg.
+    pose proof (proj1 (rank_step n g _ 0 Hn Hg)). lia.
+  - inversion Hvs as [|? ? Hv Hvs']; subst. cbn [app link_events keeps_up hc_run final fold_left] in *. cbv zeta in Hk.
+    rewrite (link_comp_obs n g hc pb L i Hn Hv HI) in *. destruct Hk as [Hlegal Hk].
+    destruct (linv_step_book n g hc pb L i Hn Hv HI Hlegal) as (HI' & Hbook).
+    destruct (IH quiet _ _ _ _ HI' Hvs' Hq Hk) as (g' & hc' & pb' & HF & Hhc & Hrk & Heq).
+    exists g', hc', pb'. split; [exact HF|]. split; [exact Hhc|]. split; [exact Hrk|].
+    cbn [link_accepted link_delivered]. rewrite <- app_assoc. apply Hbook. exact Heq.
+Qed.
+
+(* ------------------------------------------------------------------ link_delivers *)
+Lemma link_accepted_app n a : forall L b, link_accepted n L (a ++ b) = link_accepted n L a ++ link_accepted n (final (link_step n) L a) b.
+Proof. induction a as [|i a IH]; intros L b; cbn [app link_accepted final fold_left]; [reflexivity|]. rewrite IH, app_assoc. reflexivity. Qed.
+Lemma link_events_app n a : forall L b, link_events n L (a ++ b) = link_events n L a ++ link_events n (final (link_step n) L a) b.
+Proof. induction a as [|i a IH]; intros L b; cbn [app link_events final fold_left]; [reflexivity|]. cbv zeta. now rewrite IH. Qed.
+Lemma hc_run_app e1 : forall hc e2, hc_run hc (e1 ++ e2) = hc_run (hc_run hc e1) e2.
+Proof. induction e1 as [|[c r] e1 IH]; intros hc e2; cbn [app hc_run]; auto. Qed.
+Lemma link_accepted_quiet n q : forall L, Forall quiet_in q -> link_accepted n L q = [].
+Proof.
+  induction q as [|i q IH]; intros L H; [reflexivity|]. inversion H as [|? ? [Hva _] H']; subst.
+  cbn [link_accepted]. rewrite IH by assumption. unfold link_accept. rewrite Hva. change (py_truth 0) with false. now rewrite andb_false_r.
+Qed.
+
+(* general pacing: the consumer keeps up (>= 2 ready edges between consecutive completions) and, at the end, has been ready at two edges
+   since the last completion; the producer ends with at least 12 bit periods + 8 clocks without offering anything.
+   Then every accepted byte has been delivered: same values, same order, exactly once. *)
+Lemma link_delivers_lemma n ins quiet :
+  2 <= n -> Forall (fun i => 0 <= li_v i < 256) ins -> Forall quiet_in quiet -> 24 * n + 8 <= Z.of_nat (length quiet) ->
+  let evs := link_events n link_init (ins ++ quiet) in
+  keeps_up 2 evs -> hc_run 2 evs = 2 ->
+  link_delivered n link_init (ins ++ quiet) = link_accepted n link_init (ins ++ quiet)
+  /\ link_accepted n link_init (ins ++ quiet) = link_accepted n link_init ins.
+Proof.
+  intros Hn Hvs Hq Hlen evs Hk Hhc. subst evs. split.
+  2:{ rewrite link_accepted_app. rewrite (link_accepted_quiet n quiet _ Hq). apply app_nil_r. }
+  assert (Hsplit : exists i0 ins' q', ins ++ quiet = i0 :: ins' ++ q' /\ Forall (fun i => 0 <= li_v i < 256) ins' /\ Forall quiet_in q'
+                                  /\ 22 * n + 4 <= Z.of_nat (length q')).
+  { destruct ins as [|i0 ins'].
+    - destruct quiet as [|i0 q']; [cbn [length] in Hlen; lia|]. exists i0, [], q'. inversion Hq; subst. cbn [length] in Hlen. repeat split; auto. lia.
+    - exists i0, ins', quiet. inversion Hvs; subst. repeat split; auto. lia. }
+  destruct Hsplit as (i0 & ins' & q' & E & Hvs' & Hq' & Hlen'). rewrite E in *.
+  destruct (linv_boot n i0 Hn) as (HI & Ha & Hd & Hc).
+  cbn [link_events keeps_up hc_run] in Hk, Hhc. cbv zeta in Hk, Hhc. rewrite Hc in Hk, Hhc. destruct Hk as [_ Hk].
+  assert (Hh : hnext 2 false (li_ready i0) = 2) by (unfold hnext; destruct (li_ready i0 =? 0); reflexivity).
+  rewrite Hh in Hk, Hhc.
+  destruct (linv_run2 n Hn ins' q' _ _ _ _ HI Hvs' Hq' Hk) as (g' & hc' & pb' & HF & Hhc' & Hrk & Heq).
+  cbn [link_accepted link_delivered]. rewrite Ha, Hd. cbn [app].
+  pose proof (proj2 (proj1 HF)) as Hg'. pose proof (proj1 (rank_step n g' _ 0 Hn Hg')) as Hr0.
+  destruct (rank_zero n g' _ Hn Hg' ltac:(lia)) as [Hin _].
+  rewrite Hhc in Hhc'. subst hc'. rewrite Hin in Heq. cbn [hpend Z.ltb Z.compare Pos.compare Pos.compare_cont app] in Heq.
+  rewrite app_nil_r in Heq. rewrite <- Heq. cbn [ginflight].
+  replace (3 * n + 3 <=? n + 1) with false by (symmetry; apply Z.leb_gt; lia). reflexivity.
+Qed.
+
+(* an always-ready consumer keeps up, and has taken everything one clock after a completion *)
+Lemma keeps_up_ready evs : forall hc, hc = 1 \/ hc = 2 -> Forall (fun e => snd e <> 0) evs ->
+  keeps_up hc evs /\ (hc_run hc evs = 1 \/ hc_run hc evs = 2).
+Proof.
+  induction evs as [|[c r] evs IH]; intros hc Hhc H; cbn [keeps_up hc_run]; [auto|].
+  inversion H as [|? ? Hr H']; subst. cbn [snd] in Hr.
+  assert (Hn : hnext hc c r = 1 \/ hnext hc c r = 2).
+  { unfold hnext. apply Z.eqb_neq in Hr. rewrite Hr. destruct c; lia. }
+  destruct (IH _ Hn H') as [K R]. split; [split; [intros _; destruct Hhc; [right; auto | left; auto] | exact K] | exact R].
+Qed.
+
+Lemma link_events_ready n ins : forall L, Forall (fun i => li_ready i <> 0) ins -> Forall (fun e => snd e <> 0) (link_events n L ins).
+Proof. induction ins as [|i ins IH]; intros L H; cbn [link_events]; constructor; inversion H; subst; auto. Qed.
+
+Lemma link_delivers_ready_lemma n ins quiet :
+  2 <= n -> Forall (fun i => 0 <= li_v i < 256) ins -> Forall quiet_in quiet -> 24 * n + 8 <= Z.of_nat (length quiet) ->
+  Forall (fun i => li_ready i <> 0) (ins ++ quiet) ->
+  link_delivered n link_init (ins ++ quiet) = link_accepted n link_init (ins ++ quiet)
+  /\ link_accepted n link_init (ins ++ quiet) = link_accepted n link_init ins.
+Proof.
+  intros Hn Hvs Hq Hlen Hrdy.
+  pose proof (link_events_ready n (ins ++ quiet) link_init Hrdy) as Hev.
+  destruct (keeps_up_ready _ 2 (or_intror eq_refl) Hev) as [Hk Hrun].
+  apply link_delivers_lemma; auto.
+  (* the last clock is not a completion: one clock earlier the pipeline is already empty *)
+  destruct Hrun as [H1|H2]; [exfalso|exact H2].
+  assert (Hq1 : exists q1 il, quiet = q1 ++ [il]).
+  { destruct quiet as [|x q] using rev_ind; [cbn [length] in Hlen; lia|eauto]. }
+  destruct Hq1 as (q1 & il & ->). rewrite app_length in Hlen. cbn [length] in Hlen.
+  apply Forall_app in Hq as [Hq1 Hil]. inversion Hil as [|? ? [_ Hvil] _]; subst.
+  rewrite app_assoc in H1, Hk, Hev. rewrite link_events_app, hc_run_app in H1.
+  rewrite link_events_app in Hk, Hev. cbn [link_events hc_run] in H1. cbv zeta in H1.
+  apply Forall_app in Hev as [Hev1 Hev2].
+  destruct (keeps_up_ready _ 2 (or_intror eq_refl) Hev1) as [Hk1 Hrun1].
+  (* state before the last clock *)
+  assert (Hsplit : exists i0 ins' q', ins ++ q1 = i0 :: ins' ++ q' /\ Forall (fun i => 0 <= li_v i < 256) ins' /\ Forall quiet_in q'
+                                  /\ 22 * n + 4 <= Z.of_nat (length q')).
+  { destruct ins as [|i0 ins'].
+    - destruct q1 as [|i0 q']; [cbn [length] in Hlen; lia|]. exists i0, [], q'. inversion Hq1; subst. cbn [length] in Hlen. repeat split; auto. lia.
+    - exists i0, ins', q1. inversion Hvs; subst. repeat split; auto. lia. }
+  destruct Hsplit as (i0 & ins' & q' & E & Hvs' & Hq' & Hlen').
+  rewrite E in *.
+  destruct (linv_boot n i0 Hn) as (HI & _ & _ & Hc).
+  cbn [link_events keeps_up hc_run final fold_left] in *. cbv zeta in *. rewrite Hc in *. destruct Hk1 as [_ Hk1].
+  assert (Hh : hnext 2 false (li_ready i0) = 2) by (unfold hnext; destruct (li_ready i0 =? 0); reflexivity).
+  rewrite Hh in *.
+  destruct (linv_run2 n Hn ins' q' _ _ _ _ HI Hvs' Hq' Hk1) as (g' & hc' & pb' & HF & Hhc' & Hrk & _).
+  pose proof (proj2 (proj1 HF)) as Hg'. pose proof (rank_step n g' _ 0 Hn Hg') as (Hr0 & _ & Hz).
+  destruct (Hz ltac:(lia)) as [_ Hnc].
+  unfold final in HF. rewrite (link_comp_obs n g' hc' pb' _ il Hn Hvil HF), Hnc in H1.
+  inversion Hev2 as [|? ? Hril _]; subst. cbn [snd] in Hril.
+  unfold hnext in H1. apply Z.eqb_neq in Hril. rewrite Hril in H1. destruct Hrun1; lia.
 Qed.
